@@ -93,6 +93,20 @@ func TestTqvWitness(t *testing.T) {
 	if g := tqvGauge(); g != base {
 		add("gauge did not return to rest after close: %v (base %v)", g, base)
 	}
+	// entries are never shared: on a fresh table, after a session has completed, two sessions
+	// opened at the same time keep their own header and continuation
+	{
+		t2 := newSessionProvider()
+		t2.set(hdr(40, 1), hA)
+		t2.delete(40)
+		t2.set(hdr(41, 1), hA)
+		t2.set(hdr(42, 1), hB)
+		a, b := t2.known[41], t2.known[42]
+		if a == nil || b == nil || a == b || a.header.SessionID != 41 || b.header.SessionID != 42 || a.Handler != Handler(hA) || b.Handler != Handler(hB) {
+			add("two sessions opened after a completed one share or lose their table entry: 41 -> %+v, 42 -> %+v", a, b)
+		}
+		t2.close()
+	}
 	out := map[string]interface{}{"obligation": "tacquito.sessions.*", "scenario": "scripted history on the real session table (two sessions, replay, even number, RESTART, delete, close)",
 		"mismatches": bad, "violated": len(bad) > 0}
 	b, _ := json.Marshal(out)
